@@ -12,6 +12,8 @@ C14 -- Pilot states move forward and end for the right reason.
 '''
 
 import os
+import copy
+import shutil
 import re
 import itertools
 import subprocess
@@ -382,11 +384,141 @@ def run_agent(ctx):
     run_bootstrap(ctx, ctx.scratch)
 
 
+# ------------------------------------------------------------------------------
+# (c) launch failures: "FAILED otherwise" names the pilots which failed
+#
+# The real PMGRLaunchingComponent.work() is given every bulk of 1..3 pilots
+# over three (resource, access schema) targets, and every subset of the
+# targets fails at launch (the launcher raises, or staging the pilot's files
+# raises).  Only the pilots of a failing target may be announced FAILED; all
+# others are announced PMGR_ACTIVE_PENDING; a cancelled pilot is CANCELED.
+#
+TARGETS = [('local.localhost', 'local'), ('local.localhost', 'ssh'),
+           ('anl.polaris', 'local')]
+
+
+def _launch_job(args):
+    from rpmc import report
+    from checks import c17_configs as c17
+    lo, hi, scratch = args
+    os.environ['RPMC_SCRATCH'] = scratch
+    part = report.Part()
+    w    = c17.world()
+    c    = w.component
+    n    = 0
+    for case in _launch_cases()[lo:hi]:
+        targets, failing, mode, cancelled = case
+        n += 1
+        w.reset_cache()
+        pilots = list()
+        for label, schema in targets:
+            pd = w.describe(label, schema, {'nodes': 1}, w.raw[label])
+            pilots.append(w.make_pilot(pd))
+        where  = {p['uid']: t for p, t in zip(pilots, targets)}
+        log    = list()
+
+        def advance(things, state=None, publish=True, push=False, **kw):
+            for t in ru.as_list(things):
+                log.append((t['uid'], state))
+
+        def bad(target_of):
+            def f(*a, **k):
+                # a[-1]: pilots of the bulk (launcher) or the pilot (stage_in)
+                ps = a[1] if mode == 'launch' else [a[0]]
+                if any(where[p['uid']] in failing for p in ru.as_list(ps)):
+                    raise RuntimeError('injected %s failure' % mode)
+                return None
+            return f
+
+        class L(c17._Launcher):
+            def launch_pilots(self_, rcfg, ps):
+                if mode == 'launch':
+                    bad(None)(rcfg, ps)
+
+        c.advance     = advance
+        c._launchers  = {'VERIF': L()}
+        c._stage_in   = bad(None) if mode == 'stage' else \
+                        (lambda pilot, sds: None)
+        c._cancelled  = [pilots[i]['uid'] for i in cancelled]
+        c._pilots.clear()
+        replay = {'part': 'c', 'case': [list(map(list, targets)),
+                                        list(map(list, failing)), mode,
+                                        list(cancelled)]}
+        try:
+            c.work(copy.deepcopy(pilots))
+            exc = None
+        except Exception as e:
+            exc = e
+        finally:
+            del c.advance
+        for p in pilots:
+            uid  = p['uid']
+            seen = [s for u, s in log if u == uid]
+            if uid in c._cancelled:
+                want = [rps.CANCELED]
+            elif where[uid] in failing:
+                want = [rps.PMGR_LAUNCHING, rps.FAILED]
+            else:
+                want = [rps.PMGR_LAUNCHING, rps.PMGR_ACTIVE_PENDING]
+            if seen != want or exc is not None:
+                role = 'cancelled' if uid in c._cancelled else \
+                       'failing' if where[uid] in failing else 'healthy'
+                part.violation('launch-outcome|PMGRLaunchingComponent.work|'
+                               '%s:%s:%s' % (mode, role, '>'.join(
+                                   str(x) for x in seen) or 'nothing'),
+                               {'what': 'pilot on %s (%s) announced %s, '
+                                        'expected %s; targets %s, failing %s, '
+                                        'exc %r' % (where[uid], role, seen,
+                                                    want, targets, failing,
+                                                    exc)}, replay)
+        part.outcome(('launch', mode, len(targets), len(failing),
+                      tuple(sorted(s for _, s in log))))
+        for entry in os.listdir(w.tmp):
+            path = os.path.join(w.tmp, entry)
+            if os.path.isdir(path): shutil.rmtree(path, ignore_errors=True)
+            else                  : os.unlink(path)
+    part.cover(evaluations=n, launch_bulks=n)
+    return part.dump()
+
+
+_lcases = None
+
+
+def _launch_cases():
+    global _lcases
+    if _lcases is None:
+        out = list()
+        for k in (1, 2, 3):
+            for targets in itertools.product(TARGETS, repeat=k):
+                used = sorted(set(targets))
+                for r in range(len(used) + 1):
+                    for failing in itertools.combinations(used, r):
+                        for mode in ('launch', 'stage'):
+                            if not failing and mode == 'stage':
+                                continue
+                            for cancelled in ((), (0,)):
+                                if cancelled and k == 1 and failing:
+                                    continue
+                                out.append((targets, failing, mode, cancelled))
+        _lcases = out
+    return _lcases
+
+
+def run_launch(ctx):
+    cases = _launch_cases()
+    per   = max(1, len(cases) // ctx.workers + 1)
+    jobs  = [(lo, min(lo + per, len(cases)), ctx.scratch)
+             for lo in range(0, len(cases), per)]
+    for res in seams.pmap(_launch_job, jobs, ctx.workers):
+        ctx.merge(res)
+
+
 def run(ctx):
     ctx.level = 'model_checking'
     run_client(ctx)
     run_tmgr_view(ctx)
     run_agent(ctx)
+    run_launch(ctx)
     ctx.set(exhaustive=True,
             rule='(a) state = Pilot.state, transition = batch of 1..2 (3 '
                  'thorough) notifications over {p1, unknown} x 8 states, graph '
@@ -408,6 +540,14 @@ def replay(ctx, data):
         print('before', w.p1.state)
         print('exc', repr(w.apply(batch)))
         print('after', w.p1.state, 'announced', w.log_pm)
+    elif r['part'] == 'c':
+        t, f, mode, canc = r['case']
+        case = (tuple(map(tuple, t)), tuple(map(tuple, f)), mode, tuple(canc))
+        i    = _launch_cases().index(case)
+        res  = _launch_job((i, i + 1, ctx.scratch))
+        for key, detail, _ in res['violations']:
+            print('VIOLATED', key, detail['what'])
+        return 1 if res['violations'] else 0
     elif r['part'] == 'b':
         from rpmc import report
         part = report.Part()
